@@ -17,8 +17,10 @@ chunk), `outcomeAt outs j` (what attempt `j` sees: the scripted outcome, `.ok` o
 `eventOf` / `hMarkOf` / `dMarkOf` (what one blob contributes to the hand-off), `accepting`.
 
 (5) *Totality is by construction*: `classify`, `handleBlobs`, `processNext`, `scan` are total Lean functions
-defined by structural recursion over the bytes / the fuel; no input can make them diverge or fail.  That the
-real decoder never panics is the fuzz stream of the check (exploration), not a theorem. -/
+defined by structural recursion over the bytes / the fuel; no input can make them diverge or fail (this is not
+listed as a theorem).  The theorems of section (5) relate the current classifier to the pre-fix handler WITH its
+panic (`classifyDataOld`).  That the real decoder never panics is the fuzz stream of the check (exploration), not
+a theorem. -/
 namespace Spec.C09
 open Wire Chain Retrieve
 
@@ -53,16 +55,41 @@ theorem scan_cursor_monotone (p : Bytes) (fuel : Nat) (n : RNode) (v : DAView) (
 theorem empty_blob_ignored (o : Oracle) (p : Bytes) : (match classify o p [] with | .empty => true | _ => false) = true := by
   simp [classify]
 
-/-- **No blob brings the scan down**: handling any list of blobs (any bytes, any oracle answers) never sets the
-`crashed` flag of the model — the branch of `handlePotentialData` that dereferenced missing metadata is gone
-(/repo 76641b6) and the Lean classifier is total. -/
-theorem no_blob_crashes_the_scan (p : Bytes) (n : RNode) (da : Nat) (bs : List (Bytes × Oracle)) (evs : List Event) :
-    (handleBlobs p n da bs evs).1.crashed = n.crashed := (handleBlobs_frame p n da bs evs).2.2
-
 /-- signed data is handed to sync only with its metadata (what the sync loop needs to place it) -/
 theorem accepted_data_has_metadata (o : Oracle) (p bs : Bytes) (sd : SignedData)
     (h : classifyData o p bs = .dataAccepted sd) : sd.data.metadata.isSome = true :=
   ((classifyData_accepted_iff o p bs sd).1 h).2.2.1
+
+/-! ## (5) the one blob class that crashed the scan is no longer reachable
+
+Totality of the Lean classifier is by construction; what is a THEOREM is the relation to the pre-fix handler,
+modelled with its panic (`classifyDataOld … = none`: accepted signed data without metadata made
+`handlePotentialData` dereference nil, /repo 76641b6): wherever the old handler panicked the current one ignores
+the blob, and everywhere else the two agree. -/
+
+theorem old_panic_branch_now_ignored (o : Oracle) (p bs : Bytes) (h : classifyDataOld o p bs = none) :
+    classifyData o p bs = .ignored := by
+  unfold classifyDataOld at h
+  unfold classifyData
+  cases hd : SignedData.decode (fun _ => o.keyOk) bs with
+  | none => rfl
+  | some sd =>
+    rw [hd] at h
+    simp only at h ⊢
+    cases ht : sd.data.txs.isEmpty <;> cases hv : validSignedData o p sd <;>
+      cases hm : sd.data.metadata.isNone <;> simp_all
+
+theorem current_classifier_agrees_elsewhere (o : Oracle) (p bs : Bytes) (c : BlobClass)
+    (h : classifyDataOld o p bs = some c) : classifyData o p bs = c := by
+  unfold classifyDataOld at h
+  unfold classifyData
+  cases hd : SignedData.decode (fun _ => o.keyOk) bs with
+  | none => rw [hd] at h; simpa using h
+  | some sd =>
+    rw [hd] at h
+    simp only at h ⊢
+    cases ht : sd.data.txs.isEmpty <;> cases hv : validSignedData o p sd <;>
+      cases hm : sd.data.metadata.isNone <;> simp_all
 
 /-! ## demo objects for the non-vacuity examples -/
 
@@ -81,6 +108,17 @@ once, a chunk fetch at height 2 fails once; height 4 has not been produced yet -
 def demoView : DAView :=
   { placed := [(1, demoHdr.encode, okO), (1, [0xff, 0xff], okO), (2, demoDat.encode, okO)],
     scripts := [(1, [.errIds, .ok]), (2, [.errGet 0])], top := 4 }
+
+/-- kernel-evaluated: the pre-fix handler panicked on the proposer-signed data blob stripped of its metadata; the
+current classifier ignores it -/
+theorem old_handler_panicked_on_data_without_metadata :
+    classifyDataOld okO demoAddr ({ demoDat with data := { demoDat.data with metadata := none } } : SignedData).encode = none ∧
+    classify okO demoAddr ({ demoDat with data := { demoDat.data with metadata := none } } : SignedData).encode = .ignored := by
+  decide +kernel
+example : classifyData okO demoAddr ({ demoDat with data := { demoDat.data with metadata := none } } : SignedData).encode = .ignored :=
+  old_panic_branch_now_ignored _ _ _ old_handler_panicked_on_data_without_metadata.1
+example : classifyData okO demoAddr demoDat.encode = .dataAccepted demoDat :=
+  current_classifier_agrees_elsewhere _ _ _ _ (by decide +kernel)
 
 /-! ## (1) heights are examined consecutively, none skipped; a failed height is retried -/
 
@@ -227,7 +265,7 @@ example : (chunks 100 250 (List.range 250)).map List.length = [100, 100, 50] := 
 classified `.hdrAccepted` whose header hash is not in `seenH` and one per blob classified `.dataAccepted` whose
 commitment is not in `seenD` (`eventOf`), in blob order, each carrying that DA height; every accepted item
 (seen or not) gets its DA-inclusion mark with that height (`hMarkOf`, `dMarkOf`; newest first); and nothing
-else changes — not `seenH`, `seenD`, the cursor or the crash flag. -/
+else changes — not `seenH`, `seenD` or the cursor. -/
 theorem handoff_exact (p : Bytes) (n : RNode) (da : Nat) (bs : List (Bytes × Oracle)) (evs : List Event) :
     handleBlobs p n da bs evs =
       ({ n with hMarks := (bs.filterMap (hMarkOf p da)).reverse ++ n.hMarks,
@@ -250,19 +288,18 @@ theorem eventOf_spec (p : Bytes) (sH sD : List Bytes) (da : Nat) (b : Bytes) (o 
 
 theorem handoff_changes_only_marks (p : Bytes) (n : RNode) (da : Nat) (bs : List (Bytes × Oracle)) (evs : List Event) :
     (handleBlobs p n da bs evs).1.seenH = n.seenH ∧ (handleBlobs p n da bs evs).1.seenD = n.seenD ∧
-    (handleBlobs p n da bs evs).1.daHeight = n.daHeight ∧ (handleBlobs p n da bs evs).1.crashed = n.crashed := by
-  rw [handoff_exact]; exact ⟨rfl, rfl, rfl, rfl⟩
+    (handleBlobs p n da bs evs).1.daHeight = n.daHeight := by
+  rw [handoff_exact]; exact ⟨rfl, rfl, rfl⟩
 
-/-- the whole scan touches neither the seen-caches nor the crash flag, and never removes a mark -/
+/-- the whole scan does not touch the seen-caches and never removes a mark -/
 theorem scan_changes_only_cursor_and_marks (p : Bytes) (fuel : Nat) (n : RNode) (v : DAView) (evs : List Event)
     (tr : List (Nat × Nat × Bool)) :
     (scan p fuel n v evs tr).1.seenH = n.seenH ∧ (scan p fuel n v evs tr).1.seenD = n.seenD ∧
-    (scan p fuel n v evs tr).1.crashed = n.crashed ∧
     (∀ m ∈ n.hMarks, m ∈ (scan p fuel n v evs tr).1.hMarks) ∧
     (∀ m ∈ n.dMarks, m ∈ (scan p fuel n v evs tr).1.dMarks) := by
-  obtain ⟨⟨a, b, c⟩, d, e⟩ := scan_frame p fuel n v evs tr
-  exact ⟨a, b, c, d, e⟩
-example : (scan demoAddr 9 { daHeight := 1, seenH := [[1]], crashed := false } demoView [] []).1.seenH = [[1]] :=
+  obtain ⟨⟨a, b⟩, d, e⟩ := scan_frame p fuel n v evs tr
+  exact ⟨a, b, d, e⟩
+example : (scan demoAddr 9 { daHeight := 1, seenH := [[1]] } demoView [] []).1.seenH = [[1]] :=
   (scan_changes_only_cursor_and_marks _ _ _ _ _ _).1
 
 /-! ## (6) every genuine item at a passed height reaches sync -/
